@@ -624,9 +624,10 @@ func (w *messageWriter) flushFrame(final bool, extra []byte) error {
 func (w *messageWriter) ncopy(max int) (int, error) {
 	n := len(w.c.writeBuf) - w.pos
 	if n <= 0 {
-		if err := w.flushFrame(false, nil); err != nil {
-			return 0, err
-		}
+		// The Engine.IO WebTransport framing has no continuation frames: a
+		// message must go out as one frame, so grow the buffer instead of
+		// flushing a partial frame.
+		w.c.writeBuf = append(w.c.writeBuf, make([]byte, len(w.c.writeBuf))...)
 		n = len(w.c.writeBuf) - w.pos
 	}
 	if n > max {
@@ -638,15 +639,6 @@ func (w *messageWriter) ncopy(max int) (int, error) {
 func (w *messageWriter) Write(p []byte) (int, error) {
 	if w.err != nil {
 		return 0, w.err
-	}
-
-	if len(p) > 2*len(w.c.writeBuf) && w.c.isServer {
-		// Don't buffer large messages.
-		err := w.flushFrame(false, p)
-		if err != nil {
-			return 0, err
-		}
-		return len(p), nil
 	}
 
 	nn := len(p)
@@ -686,10 +678,8 @@ func (w *messageWriter) ReadFrom(r io.Reader) (nn int64, err error) {
 	}
 	for {
 		if w.pos == len(w.c.writeBuf) {
-			err = w.flushFrame(false, nil)
-			if err != nil {
-				break
-			}
+			// one frame per message: grow instead of flushing (see ncopy)
+			w.c.writeBuf = append(w.c.writeBuf, make([]byte, len(w.c.writeBuf))...)
 		}
 		var n int
 		n, err = r.Read(w.c.writeBuf[w.pos:])
